@@ -6,8 +6,12 @@ import (
 	"fmt"
 	"math"
 	"math/big"
+	"os"
+	"os/exec"
+	"path/filepath"
 	"sort"
 	"strings"
+	"sync"
 	"unicode/utf8"
 
 	spg "go.1password.io/spg"
@@ -513,6 +517,7 @@ var wordPools = [][]string{
 	{"e\u0301clair", "ςa", "σa", "אבג", "zero\u200dwidth", "nul\x00l", "ǈx", "ǆx"},
 	{"foo", "foo\r", " foo", "foo ", "bar\n", "bar", "\tbaz", "baz"},
 	{"x-ray", "X-ray", "X-Ray", "o'neil", "O'neil", "O'Neil", "42"},
+	{"iris", "island", "igloo", "ırmak", "ijs", "index", "ﬁre", "ǆip"}, // first letters whose upper case depends on the locale in other systems
 }
 
 // wlInput generates an input slice for NewWordList.
@@ -621,4 +626,121 @@ func ratString(r *big.Rat) string {
 		return fmt.Sprintf("~%.6g (%d-bit denominator)", f, r.Denom().BitLen())
 	}
 	return s
+}
+
+// ---------------------------------------------------------------------------
+// the process environment as a hostile input
+
+// envPanel: variables that classically change what text-handling code does, and switches a library might grow.
+var envPanel = []string{"LANG", "LC_ALL", "LC_CTYPE", "LANGUAGE", "TZ", "DEBUG", "VERBOSE", "TRACE"}
+
+// envValues are what a hostile (or merely Turkish) environment holds.
+var envValues = []string{"tr_TR.UTF-8", "1", "az_AZ.UTF-8", "true", "C", "debug", "lt_LT.UTF-8", "el_GR.UTF-8"}
+
+var (
+	envOnce       sync.Once
+	envDiscovered []string
+	envProbeNote  string
+)
+
+// envConsulted returns the names of the environment variables the library itself was observed to read while
+// every exported entry point was driven once (cmd/envprobe, a test binary run with -test.testlogfile: the Go
+// runtime's own log of os.Getenv/LookupEnv calls), minus those an empty test run reads. A library that is a
+// function of its recipe and its random bytes reads none.
+func envConsulted() ([]string, string) {
+	envOnce.Do(func() {
+		bin := os.Getenv("VCHECK_ENVPROBE")
+		if bin == "" {
+			envProbeNote = "VCHECK_ENVPROBE not set"
+			return
+		}
+		dir, err := os.MkdirTemp(os.Getenv("VCHECK_SCRATCH"), "envprobe-")
+		if err != nil {
+			envProbeNote = err.Error()
+			return
+		}
+		defer os.RemoveAll(dir)
+		read := func(test string) (map[string]bool, error) {
+			logf := filepath.Join(dir, test+".log")
+			cmd := exec.Command(bin, "-test.run", "^"+test+"$", "-test.testlogfile="+logf)
+			cmd.Dir = dir
+			if out, err := cmd.CombinedOutput(); err != nil {
+				return nil, fmt.Errorf("%s: %v: %s", test, err, firstLine(string(out)))
+			}
+			b, err := os.ReadFile(logf)
+			if err != nil {
+				return nil, err
+			}
+			names := map[string]bool{}
+			for _, line := range strings.Split(string(b), "\n") {
+				if strings.HasPrefix(line, "getenv ") {
+					names[strings.TrimPrefix(line, "getenv ")] = true
+				}
+			}
+			return names, nil
+		}
+		base, err := read("TestBaseline")
+		if err != nil {
+			envProbeNote = err.Error()
+			return
+		}
+		probe, err := read("TestProbe")
+		if err != nil {
+			envProbeNote = err.Error()
+			return
+		}
+		for n := range probe {
+			if !base[n] && n != "" && !strings.HasPrefix(n, "GO") {
+				envDiscovered = append(envDiscovered, n)
+			}
+		}
+		sort.Strings(envDiscovered)
+		envProbeNote = "ok"
+	})
+	return envDiscovered, envProbeNote
+}
+
+func firstLine(s string) string {
+	if i := strings.IndexByte(s, '\n'); i >= 0 {
+		return s[:i]
+	}
+	return s
+}
+
+// envNames is the panel plus whatever the library was seen to consult.
+func envNames() []string {
+	d, _ := envConsulted()
+	out := append([]string(nil), envPanel...)
+	for _, n := range d {
+		dup := false
+		for _, p := range envPanel {
+			dup = dup || p == n
+		}
+		if !dup {
+			out = append(out, n)
+		}
+	}
+	return out
+}
+
+// envRestore remembers the current values of the names and returns the function that puts them back.
+func envRestore(names []string) func() {
+	type kv struct {
+		v  string
+		ok bool
+	}
+	old := map[string]kv{}
+	for _, n := range names {
+		v, ok := os.LookupEnv(n)
+		old[n] = kv{v, ok}
+	}
+	return func() {
+		for n, o := range old {
+			if o.ok {
+				os.Setenv(n, o.v)
+			} else {
+				os.Unsetenv(n)
+			}
+		}
+	}
 }
